@@ -78,6 +78,16 @@ CHECKS = {
             "Each flip must change the text exactly as documented (labels of unreferenced lines stripped / prologue assignments and fill loops added / _ecb_start flag / library + header prepended / STRING[n] annotations); the CLI must write convert(text, mapped options, procname=input stem) with CR line ends.",
             "Relations are computed from the outputs with the reference parser (jump targets) and textual shape patterns for pre-initialisation lines.",
             "DESIGN.md §2 C11"),
+    "C03": ("model_checking",
+            "bounded-exhaustive program enumeration in six sub-spaces (array forms, DATA/READ item x target lists, PRINT argument lists, INPUT scripts, string-function arguments, read-before-write positions under pre-initialisation), each program executed by a Color BASIC reference interpreter and, translated, by a BASIC09 reference interpreter",
+            "Every program in the enumerated sub-spaces is run under both reference models; PRINT token streams, INPUT events, termination and final stores must agree; with initialize_vars the BASIC09 model runs in strict-initialisation mode and reports any read of an unassigned user variable. Uncertain BASIC09 behaviour is UNSPEC (no verdict); string slices past the end are executed under both plausible behaviours.",
+            "Trusted: the two language models (vf/decb/model.py, vf/b09/*), bound to the real systems by the token table of the BASIC09 binary, the parse of ecb.b09 and the documented-facts self-test.",
+            "DESIGN.md §2 C03, §0.1"),
+    "C20": ("model_checking",
+            "exhaustive argument enumeration for the three helper procedures, executed from the live ecb.b09 text by the BASIC09 reference interpreter against the Color BASIC model; plus the program-level empty-DATA wiring",
+            "ecb_instr on every (start, subject, pattern, preset) over the alphabet/length bound, ecb_string on counts 0..255, ecb_read_filter on every numeric spelling the DATA path produces, and every DATA/READ program with an empty item; both plausible behaviours of BASIC09 string slices past the end are executed and a violation must hold under both.",
+            "Trusted: the two language models; INSTR with an empty pattern is UNSPEC (no verdict).",
+            "DESIGN.md §2 C20"),
 }
 
 PENDING_REASON = "check not built yet in this revision (work in progress; will be claimed when its explorer exists)"
